@@ -549,6 +549,62 @@ func serverPhase(R *res.Result, rounds int) {
 				}
 			}
 		}()
+		// the same process loses the leadership and wins it again with a window that is nearly used up (whatever a
+		// background tick of the old term set aside must not come back later): one caller's ids strictly increase
+		// across the re-election and for more than a window afterwards
+		if term == 1 {
+			func() {
+				ctx, cancel := context.WithTimeout(context.Background(), 40*time.Second)
+				defer cancel()
+				one := func() (uint64, bool) {
+					resp, err := s.AllocID(ctx, &pdpb.AllocIDRequest{Header: x.Header()})
+					if err != nil || resp.GetHeader().GetError() != nil {
+						return 0, false
+					}
+					return resp.GetId(), true
+				}
+				var last uint64
+				step := func(what string) bool {
+					id, ok := one()
+					if !ok {
+						return false
+					}
+					note(id, what, 0)
+					if last != 0 && id <= last {
+						R.Violate("C04:id-not-increasing:same-process-elected-again", fmt.Sprintf("one caller, one server process: id %d was handed out after id %d (%s)", id, last, what),
+							map[string]interface{}{"id": id, "after": last, "scenario": "ids until fewer than 150 are left in the window; 150 ms; ResetLeader; the same member wins again; 1500 more ids"})
+						return false
+					}
+					last = id
+					return true
+				}
+				b := bound()
+				for k := 0; k < 1200 && b != 0; k++ {
+					if !step("AllocID before the re-election") {
+						return
+					}
+					if last >= b {
+						b = bound()
+					}
+					if b-last < 150 {
+						break
+					}
+				}
+				time.Sleep(150 * time.Millisecond) // three leader ticks
+				s.GetMember().ResetLeader()
+				if x.WaitLeader(20*time.Second) != nil {
+					return
+				}
+				mu.Lock()
+				R.Count("server:same-process-elected-again")
+				mu.Unlock()
+				for k := 0; k < 1500; k++ {
+					if !step("AllocID after the same process was elected again") {
+						return
+					}
+				}
+			}()
+		}
 		// every id handed out so far is at most the bound stored now
 		b := bound()
 		mu.Lock()
